@@ -247,7 +247,7 @@ BRUSH_ATTR_ORDER = "cinrltux"
 
 
 def canon_attrs(a):
-    a = "".join(sorted((c for c in a if c not in "aA-"), key=lambda c: BRUSH_ATTR_ORDER.find(c)))
+    a = "".join(sorted(set(c for c in a if c not in "aA-"), key=lambda c: BRUSH_ATTR_ORDER.find(c)))
     return a or "-"
 
 
@@ -396,7 +396,7 @@ def _gen_cases(ctx):
     for _ in range(ctx.size(8000, 60000)):
         v = rand_string(rng)
         form = rng.choice(SCALAR_FORMS)
-        attrs = rng.choice(ATTRS) if form in ("A", "dp") else ""
+        attrs = rng.choice(ATTRS) if form in ("A", "dp", "ex") else ""
         cases.append(Case("rand", form, attrs, [fit_attrs(rng, attrs, v)]))
     strings = small + [rand_string(rng, 12) for _ in range(400)]
     for _ in range(ctx.size(4000, 30000)):
@@ -427,6 +427,9 @@ def explain(form, attrs, vals, mode, expect, rb, rh):
         return ["assoc_key_close_bracket"]
     if form == "tr" and vals and "'" in vals[0]:
         return ["trap_p_unescaped_single_quote"]
+    if form == "ex" and canon_attrs(attrs + "x") != "x" and rb == rh and \
+            rb == expect.replace("V %s " % canon_attrs(attrs + "x"), "V x ", 1):
+        return ["export_p_drops_attributes"]
     return None
 
 
@@ -471,6 +474,7 @@ def _run(ctx, work):
     try:
         _fn_level(ctx, work, cwd, viol)
         _e2e_level(ctx, work, cwd, viol)
+        _shadow_level(ctx, work, cwd, viol)
     finally:
         os.chdir(lib.ROOT)
     ctx.cov["rule"] = ("strings over the property's 20-character alphabet exhaustively to length 3 through the six quoting "
@@ -478,13 +482,19 @@ def _run(ctx, work):
                        "trap -p, xtrace; scalars, indexed and associative arrays with attributes) on all strings to length 2, "
                        "a slice (thorough: all) of length 3, and seeded random strings to length 40 over a wider alphabet "
                        "(all metacharacters, more controls, wide characters); each text is re-read by eval in brush and in bash. "
+                       "Shadowing contexts: every printer (by name and the no-name listings declare -p / set / export -p / local -p) "
+                       "inside a function whose local hides a global of a different value, kind and attributes, inside a callee whose "
+                       "local hides the caller's local, and under a temporary `v=… eval` binding; the re-read value must be the "
+                       "visible (innermost) one: all strings to length 2 in each context plus seeded random ones. "
                        "non-trivial = the value is non-empty and not purely alphanumeric")
     ctx.assumptions += ["bash 5.2.15 reading the text is the second reader ('and in bash')",
                         "`set` output is not required to recreate associative arrays (bash's own `set` output does not either)",
                         "values with attribute -i/-l/-u are integers / lower / upper case (what such a variable can hold)",
                         "the reader model returns 'unsupported' outside the quoting fragment (substitutions, operators, globs, arrays); "
                         "there the property is decided on brush and bash alone",
-                        "HOME=/hh, non-interactive shells (no history expansion)"]
+                        "HOME=/hh, non-interactive shells (no history expansion)",
+                        "a local inherits the export attribute of the binding it hides, a temporary binding is exported (as in bash); "
+                        "hidden outer variables are not readonly (a readonly global cannot be hidden)"]
 
 
 def _trivial(v):
@@ -612,11 +622,254 @@ def _e2e_level(ctx, work, cwd, viol):
             ctx.sample({"form": c.form, "values": vals, "text": unesc(bp[0]), "reread": bp[1:]})
 
 
+# ------------------------------------------------------------------------------------------------
+# shadowing contexts
+
+SH_OUTER_VALUES = ["OUTER", "out'er $x", "0", "~", "#o \"q\""]
+
+
+class Spec:
+    def __init__(self, kind, attrs, vals):
+        self.kind, self.attrs, self.vals = kind, attrs, vals
+
+    def tokens(self):
+        return [self.kind, self.attrs or "-", str(len(self.vals))] + [esc(v) for v in self.vals]
+
+
+def effective_attrs(ctx_name, specs):
+    """attributes of the visible (innermost) binding: a local inherits `x` from what it hides; a temporary binding is exported"""
+    if ctx_name == "tmp":
+        return "x"
+    x = False
+    eff = ""
+    for sp in reversed(specs):
+        eff = sp.attrs
+        if x and "x" not in eff:
+            eff += "x"
+        x = "x" in eff
+    return canon_attrs(eff)
+
+
+def shadow_expect(ctx_name, specs):
+    """form -> (modes for the bash reader, expected re-reads); None = no line may be printed"""
+    inner = specs[0]
+    eff = effective_attrs(ctx_name, specs)
+    out = {}
+    if inner.kind == "s":
+        v = esc(inner.vals[0])
+        for f in ("pq", "Q", "xt"):
+            out[f] = (["a", "s"], ["W 1 " + v, "S " + v])
+        for f in ("A", "dp", "dpl") + (() if ctx_name == "tmp" else ("lp",)):
+            out[f] = (["v:zzv"], ["V %s s %s" % (eff, v)])
+        out["set"] = (["v:zzv"], ["V - s " + v])
+        out["xs"] = (["v:zzt"], ["V - s " + v])
+        out["ex"] = (["v:zzv"], ["V %s s %s" % (eff, v)]) if "x" in eff else None
+        out["al"] = (["al"], ["S " + v])
+        if in_domain("tr", inner.vals[0]):
+            out["tr"] = (["tr"], ["S " + v])
+    else:
+        kv = " ".join("%d %s" % (i, esc(x)) for i, x in enumerate(inner.vals))
+        out["Qa"] = (["a"], [" ".join(["W", str(len(inner.vals))] + [esc(x) for x in inner.vals])])
+        for f in ("Aa", "dpa", "dpl", "lp"):
+            out[f] = (["v:zzv"], ["V %s a %s" % (eff, kv)])
+        out["seta"] = (["v:zzv"], ["V - a " + kv])
+    return out
+
+
+def parse_shadow_request(req):
+    toks = [unesc(t) if i > 1 else t for i, t in enumerate(req.split(" "))]
+    specs, i = [], 2
+    while i < len(toks):
+        n = int(toks[i + 2])
+        specs.append(Spec(toks[i], "" if toks[i + 1] == "-" else toks[i + 1], toks[i + 3:i + 3 + n]))
+        i += 3 + n
+    return toks[1], specs
+
+
+def gen_shadow(ctx):
+    rng = ctx.rng
+    reqs = []
+    cfile = os.path.join(lib.ROOT, "corpus", "C13", "shadow.req")
+    if os.path.exists(cfile):
+        for l in open(cfile, encoding="utf-8"):
+            l = l.rstrip("\n")
+            if l.startswith("sh "):
+                cname, specs = parse_shadow_request(l)
+                reqs.append(("corpus", cname, specs))
+    small = list(exhaustive(2))
+    for ci, cname in enumerate(("f1", "f2", "tmp")):
+        for i, v in enumerate(small):
+            ov = SH_OUTER_VALUES[(i + ci) % len(SH_OUTER_VALUES)]
+            if ov == v:
+                ov = "OUTER2"
+            oattrs = ("", "x")[(i // 2 + ci) % 2]
+            specs = [Spec("s", ("", "", "x", "r")[(i // 5) % 4] if cname != "tmp" else "", [v])]
+            if cname == "f2":
+                specs.append(Spec("s", ("", "x")[(i // 3) % 2], ["mid " + ov]))
+            specs.append(Spec("s", oattrs, [ov]))
+            reqs.append(("exh", cname, specs))
+    strings = small + [rand_string(rng, 12) for _ in range(300)]
+    for _ in range(ctx.size(1500, 20000)):
+        cname = rng.choice(("f1", "f1", "f2", "tmp"))
+        ov = rng.choice(SH_OUTER_VALUES + [rand_string(rng, 8)])
+        if cname == "tmp":
+            inner = Spec("s", "", [rng.choice(strings)])
+            outer = Spec("s", rng.choice(("", "x")), [ov])
+        else:
+            if rng.random() < 0.3:
+                inner = Spec("a", rng.choice(("", "", "x", "r")), [rng.choice(strings) for _ in range(rng.randint(1, 3))])
+            else:
+                a = rng.choice(("", "", "x", "r", "rx", "i"))
+                inner = Spec("s", a, [str(rng.choice([0, 7, -3, 42])) if "i" in a else rng.choice(strings)])
+            ok = rng.choice("ssaA")
+            if ok == "s":
+                oa = rng.choice(("", "x", "i", "ix"))
+                outer = Spec("s", oa, [str(rng.randint(100, 999)) if "i" in oa else ov])
+            elif ok == "a":
+                outer = Spec("a", rng.choice(("", "x")), [ov, "second"])
+            else:
+                outer = Spec("A", rng.choice(("", "x")), ["k", ov])
+        specs = [inner]
+        if cname == "f2":
+            specs.append(Spec("s", rng.choice(("", "x")), ["mid " + ov]))
+        specs.append(outer)
+        if inner.kind == "s" and outer.kind == "s" and inner.vals == outer.vals:
+            continue
+        reqs.append(("rand", cname, specs))
+    return reqs
+
+
+def shadow_request(cname, specs):
+    return "sh %s %s" % (cname, " ".join(t for sp in specs for t in sp.tokens()))
+
+
+def _parse_segs(line):
+    out = {}
+    for seg in line.split(" %| "):
+        p = seg.split(" %; ")
+        if len(p) >= 2:
+            out[p[0]] = p[1:]
+    return out
+
+
+def _shadow_level(ctx, work, cwd, viol):
+    items = gen_shadow(ctx)
+    reqs = [shadow_request(c, sp) for _, c, sp in items]
+    okh, bouts, errs = _vh(reqs, work)
+    if not okh:
+        ctx.broken.append("harness c13 died: " + errs[:500])
+    mouts = lib.run_drv_parallel(["C13 " + r for r in reqs])
+    exps = [shadow_expect(c, sp) for _, c, sp in items]
+    jobs, idx = [], []
+    parsed = []
+    for ri, (b, ex) in enumerate(zip(bouts, exps)):
+        segs = _parse_segs(b)
+        parsed.append(segs)
+        for form, e in ex.items():
+            if e is None or form not in segs or segs[form][0] in ("ABSENT", "NOFILE"):
+                continue
+            for k, mode in enumerate(e[0]):
+                jobs.append((mode, unesc(segs[form][0])))
+                idx.append((ri, form, k))
+    hres = dict(zip(idx, bash_read(jobs, cwd)))
+    shown = 0
+    for ri, ((src, cname, specs), req, b, m, ex, segs) in enumerate(zip(items, reqs, bouts, mouts, exps, parsed)):
+        msegs = _parse_segs(m)
+        inner = specs[0]
+        eff = effective_attrs(cname, specs)
+        base = {"context": cname, "request": req,
+                "scopes (innermost first)": [{"kind": sp.kind, "declared attrs": sp.attrs, "values": sp.vals} for sp in specs],
+                "visible attrs": eff}
+        for form, e in ex.items():
+            ctx.count(("sh", cname, form, req), nontrivial=not all(_trivial(v) for v in inner.vals),
+                      bucket="shadow-%s:%s" % (cname, form))
+            ctx.impl_validated += 1
+            cd = dict(base)
+            cd.update({"form": form, "brush": segs.get(form), "model": msegs.get(form)})
+            bs = segs.get(form)
+            if bs is None or bs[0] == "NOFILE":
+                viol("brush printed nothing usable for form '%s' in a shadowing context" % form, cd)
+                continue
+            if e is None:
+                if bs[0] != "ABSENT":
+                    cd["text"] = unesc(bs[0])
+                    viol("export -p lists a variable whose visible binding is not exported (a hidden outer binding is printed)", cd)
+                elif msegs.get(form) != bs:
+                    viol("listing model and brush disagree", cd, kind="correspondence")
+                continue
+            modes, expect = e
+            if bs[0] == "ABSENT":
+                viol("the listing '%s' has no line for the visible binding of the variable" % form, cd)
+                continue
+            cd["text"] = unesc(bs[0])
+            fails = []
+            for k, mode in enumerate(modes):
+                h = hres.get((ri, form, k), "DIED")
+                cd["bash-" + mode] = h
+                rb = bs[1 + k] if len(bs) > 1 + k else "MISSING"
+                if rb != expect[k] or h != expect[k]:
+                    fails.append((k, mode, rb, h))
+            ms = msegs.get(form)
+            if ms is None or ms[0] != bs[0]:
+                viol("printer/listing model and brush disagree on the text printed in a shadowing context"
+                     + (": and it does not read back to the visible value" if fails else ""), cd,
+                     kind="property" if fails else "correspondence")
+                continue
+            if any(ms[1 + k] != "UNSUP" and ms[1 + k] != bs[1 + k] for k in range(len(modes)) if len(ms) > 1 + k and len(bs) > 1 + k):
+                viol("reader model and brush disagree on text printed in a shadowing context", cd,
+                     kind="property" if fails else "correspondence")
+                continue
+            for k, mode, rb, h in fails:
+                eform = {"dpl": "dp", "lp": "dp", "dpa": "dpa", "seta": "seta"}.get(form, form)
+                clause = explain(eform, eff if eform in ("A", "dp", "ex") else "", inner.vals, mode[0], expect[k], rb, h)
+                what = ("in context %s the text printed by '%s' does not read back to the visible (innermost) value "
+                        "(%s: brush %s, bash %s)" % (cname, form, mode, "ok" if rb == expect[k] else "WRONG",
+                                                     "ok" if h == expect[k] else "WRONG"))
+                d = dict(cd)
+                d["expected"] = expect[k]
+                if clause:
+                    for cl in clause:
+                        ctx.known_or_violation(cl, what, d)
+                else:
+                    viol(what, d)
+        if shown < 3 and ri % 499 == 7:
+            shown += 1
+            ctx.sample({"shadow context": cname, "scopes": base["scopes (innermost first)"], "brush": b[:400]})
+
+
 def replay(ctx, rp):
     ok, out = lib.cargo_build([BIN])
     case = rp["case"]
     work = tempfile.mkdtemp(prefix="w-C13-replay-")
     try:
+        if "context" in case:
+            req = case["request"]
+            _, b, _ = lib.run_vh(BIN, [req], env={"TMPDIR": work, "HOME": HOME})
+            m = lib.run_drv(["C13 " + req])
+            b = b[0] if b else "<harness died>"
+            segs, msegs = _parse_segs(b), _parse_segs(m[0])
+            cname, specs = parse_shadow_request(req)
+            ex = shadow_expect(cname, specs)
+            print("request:", req)
+            bad = False
+            for form, e in ex.items():
+                bs = segs.get(form)
+                print("form %-5s brush: %s\n           model: %s" % (form, bs, msegs.get(form)))
+                if e is None:
+                    if bs and bs[0] != "ABSENT":
+                        bad = True
+                        print("           expected no line (visible binding not exported)")
+                    continue
+                if not bs or bs[0] in ("ABSENT", "NOFILE"):
+                    bad = True
+                    continue
+                hs = bash_read([(mode, unesc(bs[0])) for mode in e[0]], work)
+                for k, mode in enumerate(e[0]):
+                    okk = len(bs) > 1 + k and bs[1 + k] == e[1][k] and hs[k] == e[1][k]
+                    print("           %-6s expected %s | bash %s%s" % (mode, e[1][k], hs[k], "" if okk else "   <-- FAILS"))
+                    bad = bad or not okk
+            print("property on brush:", "FAILS" if bad else "holds")
+            return 1 if bad else 0
         if "request" in case:
             c = Case("replay", case["form"], case.get("attrs", ""), case["values"])
             _, b, _ = lib.run_vh(BIN, [c.req], env={"TMPDIR": work, "HOME": HOME})
